@@ -470,7 +470,7 @@ impl<'a> SyncGen<'a> {
                 }
             }
             3 => Op::CRead { c: self.rng.below(self.n_cells) as u8 },
-            4 => Op::CWrite { c: self.rng.below(self.n_cells) as u8 },
+            4 => Op::CWrite { c: self.rng.below(self.n_cells) as u8, v: self.vs.constant() },
             5 => Op::Yield,
             6 => {
                 let mut u = self.rng.below(self.nt);
@@ -552,7 +552,7 @@ impl<'a> SyncGen<'a> {
                 let try_ = self.pr.try_ops && self.rng.chance(1, 3);
                 out.push(if try_ { Op::TryWLock { l: 0 } } else { Op::WLock { l: 0 } });
                 if self.pr.cells && self.rng.chance(2, 3) {
-                    out.push(Op::CWrite { c: self.rng.below(self.n_cells) as u8 });
+                    out.push(Op::CWrite { c: self.rng.below(self.n_cells) as u8, v: self.vs.constant() });
                 } else if let Some(op) = self.simple_op(t) {
                     out.push(op);
                 }
@@ -672,15 +672,15 @@ pub fn gen_race(rng: &mut Rng) -> Program {
     // the last thread waits for the flag and reads/writes the cell. Orderings are random, so the chain
     // is sometimes properly synchronised and sometimes not.
     let mut bodies: Vec<Vec<Op>> = vec![Vec::new(); nt];
-    let access = |rng: &mut Rng| -> Op {
+    let access = |rng: &mut Rng, vs: &mut ValueSrc| -> Op {
         if use_atomic_na && rng.chance(1, 2) {
             if rng.chance(1, 2) {
-                Op::AWithMut { a: na_atomic, v: 7 }
+                Op::AWithMut { a: na_atomic, v: vs.constant() }
             } else {
                 Op::AUnsyncLoad { a: na_atomic }
             }
         } else if rng.chance(1, 2) {
-            Op::CWrite { c: 0 }
+            Op::CWrite { c: 0, v: vs.constant() }
         } else {
             Op::CRead { c: 0 }
         }
@@ -692,7 +692,7 @@ pub fn gen_race(rng: &mut Rng) -> Program {
     };
     let producer = order[0];
     // producer
-    bodies[producer].push(access(rng));
+    bodies[producer].push(access(rng, &mut vs));
     let mut prev_val: Vec<Option<(u8, u64)>> = Vec::new(); // (flag, value) to wait for per hop
     let hops = nt - 1;
     let mut published: Option<(u8, u64)> = None;
@@ -728,7 +728,16 @@ pub fn gen_race(rng: &mut Rng) -> Program {
                     bodies[from].push(Op::Store { a: f, v, o: pick_store_ord(rng, pal) });
                 }
                 let o = pick_load_ord(rng, pal);
-                bodies[to].push(Op::Load { a: f, o });
+                if rng.chance(1, 4) {
+                    // observe the flag through a compare_exchange (succeeding or failing), with
+                    // independently drawn success / failure orderings
+                    let e = if rng.chance(1, 2) { v } else { v + 1 };
+                    let so = pick_rmw_ord(rng, if pal == Palette::RlxOnly { Palette::RelAcq } else { pal });
+                    let fo = *rng.pick(&[MO::Rlx, MO::Rlx, MO::Acq]);
+                    bodies[to].push(Op::Cas { a: f, e, n: vs.constant(), so, fo });
+                } else {
+                    bodies[to].push(Op::Load { a: f, o });
+                }
                 let pc = (bodies[to].len() - 1) as u8;
                 let fence_after = pal != Palette::RlxOnly && rng.chance(1, 4);
                 if fence_after {
@@ -745,7 +754,7 @@ pub fn gen_race(rng: &mut Rng) -> Program {
                 }
                 bodies[from].push(Op::Unlock { m: 0 });
                 bodies[to].push(Op::Lock { m: 0 });
-                bodies[to].push(access(rng));
+                bodies[to].push(access(rng, &mut vs));
                 bodies[to].push(Op::Unlock { m: 0 });
                 published = None;
                 prev_val.push(None);
@@ -762,7 +771,7 @@ pub fn gen_race(rng: &mut Rng) -> Program {
                 bodies[from].push(Op::Unpark { t: to as u8 });
                 bodies[to].push(Op::Park);
                 published = None;
-                bodies[to].push(access(rng));
+                bodies[to].push(access(rng, &mut vs));
                 prev_val.push(None);
                 continue;
             }
@@ -771,7 +780,7 @@ pub fn gen_race(rng: &mut Rng) -> Program {
         if let Some((pc, v)) = published {
             let is_last = h + 1 == hops;
             if is_last || rng.chance(1, 2) {
-                bodies[to].push(Op::If { pc, eq: v, then: Box::new(access(rng)) });
+                bodies[to].push(Op::If { pc, eq: v, then: Box::new(access(rng, &mut vs)) });
             }
             if !is_last {
                 // forward: the next hop's publication is conditional too
@@ -783,7 +792,7 @@ pub fn gen_race(rng: &mut Rng) -> Program {
     // occasionally an extra unsynchronised access somewhere
     if rng.chance(1, 5) {
         let t = rng.below(nt);
-        bodies[t].push(access(rng));
+        bodies[t].push(access(rng, &mut vs));
     }
     for t in 1..nt {
         p.threads[0].push(Op::Spawn { t: t as u8 });
@@ -799,7 +808,7 @@ pub fn gen_race(rng: &mut Rng) -> Program {
         p.threads[0].push(Op::Join { t: t as u8 });
     }
     if rng.chance(1, 3) {
-        p.threads[0].push(access(rng));
+        p.threads[0].push(access(rng, &mut vs));
     }
     for t in 1..nt {
         p.threads[t] = std::mem::take(&mut bodies[t]);
